@@ -224,45 +224,89 @@ def doRun (a : Json) : Except String Json := do
 
 def ratAbs (x : Rat) : Rat := if x < 0 then -x else x
 
-/-- scripted `AllowN(now, n)` calls on one limiter. With `impl` (the real limiter's answers): a call whose
-    outcome hangs on less than 1/1000 token (`tokens − n` within ±1/1000: decided by float64 rounding and the
-    nanosecond truncation in x/time/rate, which the `Rat` model does not have) follows the implementation and
-    is reported as `tight`; the window judge runs on the implementation's grants at the TRUE time of each
-    call (the running maximum of the clock readings handed in: a reading may be stale, time is not). -/
+/-- one entry of a scripted bucket case -/
+inductive BCall where
+  | allow (now n : Int)
+  | resize (qps burst : Int)
+
+def decBCall (c : Json) : Except String BCall := do
+  match J.optObj c "resize" with
+  | some v =>
+    match (← v.getArr?).toList with
+    | [q, b] => pure (.resize (← q.getInt?) (← b.getInt?))
+    | _ => throw "bad resize"
+  | none => pure (.allow (← J.getInt c "now") (← J.getInt c "n"))
+
+structure BState where
+  b : Bucket
+  /-- the parameters of the current judging window and its events `(true time, grant)` -/
+  q : Int
+  bu : Int
+  events : List (Int × Int)
+  tmax : Option Int
+  oks : List Bool
+  tight : Nat
+  winOk : Bool
+
+/-- scripted `AllowN(now, n)` calls on one limiter, interleaved with `Resize(qps, burst)` calls. With `impl` (the
+    real code's answers): a call whose outcome hangs on less than 1/1000 token (`tokens − n` within ±1/1000:
+    decided by float64 rounding and the nanosecond truncation in x/time/rate, which the `Rat` model does not
+    have) follows the implementation and is reported as `tight`; the window judge runs on the implementation's
+    grants at the TRUE time of each call (the running maximum of the clock readings handed in: a reading may be
+    stale, time is not). A judging window is closed ONLY by a `Resize` that really changes qps or burst: a
+    `Resize` to the same values is no reconfiguration and the bound `burst + qps·T` spans it. -/
 def doBucket (a : Json) : Except String Json := do
   let qps ← J.getInt a "qps"
   let burst ← J.getInt a "burst"
   if qps ≤ 0 then throw "qps must be positive (validation rejects other values; not modelled)"
-  let calls ← (← J.getArr a "calls").toList.mapM fun c => do pure ((← J.getInt c "now"), (← J.getInt c "n"))
+  let calls ← (← J.getArr a "calls").toList.mapM decBCall
+  for c in calls do
+    match c with
+    | .resize q _ => if q ≤ 0 then throw "qps must be positive (validation rejects other values; not modelled)"
+    | _ => pure ()
   let impl : Option (List Bool) ← match J.optObj a "impl" with
     | none => pure none
     | some im => do pure (some (← (← im.getArr?).toList.mapM (·.getBool?)))
-  let rec go (b : Bucket) (calls : List (Int × Int)) (impl : List Bool) (oks : List Bool) (tight : Nat) : List Bool × Nat :=
-    match calls with
-    | [] => (oks, tight)
-    | (now, n) :: rest =>
-      let (b', ok) := allowN b now n
-      let (last, tokens) := advance b now
+  let slack : Rat := (1 : Rat) / 1000
+  let stepB (st : BState) (c : BCall) (iok : Option Bool) : BState :=
+    match c with
+    | .resize q bu =>
+      let (b', r) := bucketResize st.b q bu
+      if q = st.q ∧ bu = st.bu then { st with b := b', oks := st.oks ++ [r] }
+      else
+        { st with b := b', oks := st.oks ++ [r], winOk := st.winOk && windowsOk st.q st.bu slack st.events,
+                  q := q, bu := bu, events := [] }
+    | .allow now n =>
+      let (b', ok) := allowN st.b now n
+      let (last, tokens) := advance st.b now
       let margin := tokens - (n : Rat)
+      let t := match st.tmax with
+        | none => now
+        | some m => if now < m then m else now
+      let (b2, ok2, tight2) :=
+        match iok with
+        | some i =>
+          if i ≠ ok ∧ n ≤ st.b.burst ∧ ratAbs margin < (1 : Rat) / 1000 then
+            -- follow the implementation on a knife edge
+            ((if i then { st.b with last := some now, tokens := margin } else { st.b with last := last } : Bucket), i, st.tight + 1)
+          else (b', ok, st.tight)
+        | none => (b', ok, st.tight)
+      let g := match iok with
+        | some i => if i then n else 0
+        | none => if ok2 then n else 0
+      { st with b := b2, oks := st.oks ++ [ok2], tight := tight2, tmax := some t, events := st.events ++ [(t, g)] }
+  let rec go (st : BState) (calls : List BCall) (impl : List Bool) : BState :=
+    match calls with
+    | [] => st
+    | c :: rest =>
       match impl with
-      | iok :: irest =>
-        if iok ≠ ok ∧ n ≤ b.burst ∧ ratAbs margin < (1 : Rat) / 1000 then
-          -- follow the implementation on a knife edge
-          let b'' : Bucket := if iok then { b with last := some now, tokens := margin } else { b with last := last }
-          go b'' rest irest (oks ++ [iok]) (tight + 1)
-        else go b' rest irest (oks ++ [ok]) tight
-      | [] => go b' rest [] (oks ++ [ok]) tight
-  let (oks, tight) := go (Bucket.init qps burst) calls (impl.getD []) [] 0
-  let judge := match impl with
-    | none => Json.null
-    | some ioks =>
-      let (_, events) := (calls.zip ioks).foldl (fun (acc : Option Int × List (Int × Int)) (c : (Int × Int) × Bool) =>
-        let t := match acc.1 with
-          | none => c.1.1
-          | some m => if c.1.1 < m then m else c.1.1
-        (some t, acc.2 ++ [(t, if c.2 then c.1.2 else 0)])) (none, [])
-      J.bool (windowsOk qps burst ((1 : Rat) / 1000) events)
-  pure <| J.obj [("ok", Json.arr (oks.map J.bool).toArray), ("windows", judge), ("tight", J.nat tight),
+      | i :: irest => go (stepB st c (some i)) rest irest
+      | [] => go (stepB st c none) rest []
+  let st0 : BState := ⟨Bucket.init qps burst, qps, burst, [], none, [], 0, true⟩
+  let st := go st0 calls (impl.getD [])
+  let winOk := st.winOk && windowsOk st.q st.bu slack st.events
+  pure <| J.obj [("ok", Json.arr (st.oks.map J.bool).toArray),
+    ("windows", match impl with | none => Json.null | some _ => J.bool winOk), ("tight", J.nat st.tight),
     -- can the real TryAcquireN hand the limiter a stale clock reading? (regenerated shape fact)
     ("staleReachable", J.bool (!KG.Gen.C08.tryAcquireSerialized))]
 
